@@ -11,7 +11,7 @@ CHECKS = {
     "C01": (
         "model_checking",
         "exhaustive small-scope enumeration of abstract pages (traces of a line-event scope machine) replayed against the real compiler",
-        "Every abstract single-item page over 16 kind/priority forms x 4 identity forms x bodies of 1..N words from a 10-word alphabet made of prefix look-alikes x 4 tail shapes, and every ordered pair (quick) / pair and triple (thorough) of a 24-item reduced alphabet in 5 layouts, is rendered, compiled by walk_zorg_page and compared field by field (kind, priority, body, line, ZID, create and modify date, count, order) with the notes the abstract page denotes. All traces of the model within the bound are replayed on the implementation, so there is no model/code gap inside the bound.",
+        "Every abstract single-item page over 16 kind/priority forms x 4 identity forms x bodies of 1..N words from a 10-word alphabet made of prefix look-alikes x 4 tail shapes, and every ordered pair (quick) / pair and triple (thorough) of a 24-item reduced alphabet in 6 layouts plus a 120-item page whose section with a child is followed by a sibling, is rendered, compiled by walk_zorg_page and compared field by field (kind, priority, body, line, ZID, create and modify date, section path, block, count, order - both of the section tree and of Page.notes) with the notes the abstract page denotes. All traces of the model within the bound are replayed on the implementation, so there is no model/code gap inside the bound.",
         "Trusts the reference model mc/models/zo_model.py and the vetted alphabets; generated parser as committed; larger pages / other words only by the small-scope hypothesis.",
         "§4 C01",
     ),
@@ -32,35 +32,35 @@ CHECKS = {
     "C04": (
         "exploration",
         "exhaustive small-scope enumeration of abstract queries rendered to text and compiled by the real query compiler, compared structurally with the denoted Query",
-        "All select forms, every single atom (all 64 priority-range spellings, every operator/negation/quote/case form), every expression shape up to 3 leaves and paren depth 2, every ^/$ date form (short, d/m/y relative, negative, ranges) on 7 frozen calendar-edge days resolved by hand-written month arithmetic, all order/group lists up to length 2 (+ longer samples) in both clause orders with every subset of omitted clauses, keyword identifiers, and the CLI normalisation function. Each string must pass a well-formedness gate built from the repo's own generated lexer/parser (0 lexer errors, 0 parser errors, all input consumed); a rejected string is reported, never silently dropped.",
+        "All select forms, every single atom (all 64 priority-range spellings, every operator/negation/quote/case form), every expression shape up to 3 leaves and paren depth 2, every ^/$ date form (short, d/m/y relative, negative, ranges) on 7 frozen calendar-edge days resolved by hand-written month arithmetic, every relative date spec compiled on two different frozen days in ONE process (nothing resolved against an earlier today may be carried over), all order/group lists up to length 2 (+ longer samples) in both clause orders with every subset of omitted clauses, keyword identifiers, and the CLI normalisation function. Each string must pass a well-formedness gate built from the repo's own generated lexer/parser (0 lexer errors, 0 parser errors, all input consumed); a rejected string is reported, never silently dropped.",
         "Identifiers from the documented alphabet minus reserved tokens and 6-digit date-shaped words; file globs compared in stored form.",
         "§4 C04",
     ),
     "C05": (
         "model_checking",
         "explicit-state exploration of create/reindex histories over an exhaustive family of initial directories, every transition executed by the real CLI",
-        "For every ZID-less item variant (kind x priority x long date x spacing x tail) and every ordered pair of a 12-item alphabet in 5 layouts, with and without a pre-existing next_ids.json at carry points, histories over {create, reindex} (with and without the day advancing) are run through the real CLI in fresh processes; in every state: every note has a ZID, the raw index equals the recompiled files field by field (page, line, section path, block, ZID, kind, priority, body, dates, tags, links, properties), each file equals the original except for predicted first lines of formerly ZID-less items, file_hash.json lists exactly the pages with their current SHA-256, and later runs change nothing.",
+        "For every ZID-less item variant (kind x priority x long date x spacing x tail) and every ordered pair of a 12-item alphabet in 8 layouts (incl. same-named pages in sub-directories and a page opening with an H2), with and without a pre-existing next_ids.json at carry points, histories over {create, reindex} (with and without the day advancing) are run through the real CLI in fresh processes; in every state: every note has a ZID, the raw index equals the recompiled files field by field (page, line, section path, block, ZID, kind, priority, body, dates, tags, links, properties), each file equals the original except for predicted first lines of formerly ZID-less items, file_hash.json lists exactly the pages with their current SHA-256, and later runs change nothing.",
         "ZID-less items with a hand-written modify date are excluded; trusts M3 (sqlite3 reader) and the line-prediction model.",
         "§4 C05",
     ),
     "C06": (
         "model_checking",
         "explicit-state BFS over edit/reindex/day-advance histories on real directories with a differential oracle (incremental index vs fresh db create)",
-        "Breadth-first search to depth 3 (quick) / 4 (thorough) from four initial states (one level less from the two derived ones) over 17 events (edits, add/delete/rename/restore pages, plain and path-restricted reindex, day advance); states are real directories deduplicated on a canonical digest (files, raw index, hash map, next ids, whitelist, day, guards). In every state reached by a plain reindex the raw index must equal that of a fresh db create on a copy of the final files, files must be settled, and 12 queries must be answered identically by both indexes.",
+        "Breadth-first search to depth 3 (quick) / 4 (thorough) from five initial states (one level less from the three derived ones: after a stamped edit, after a page was deleted and the index followed, after a plain reindex was refused half-way with a new page already indexed) over 18 events (edits, add/delete/rename/restore pages, break/repair the last page, plain and path-restricted reindex, day advance); states are real directories deduplicated on a canonical digest (files, raw index, hash map, next ids, whitelist, day, guards). In every state reached by a plain reindex the raw index must equal that of a fresh db create on a copy of the final files, files must be settled, and 12 queries must be answered identically by both indexes.",
         "One small directory and a fixed menu of edits; rows no query can observe (orphan tag/link rows) are not judged.",
         "§4 C06",
     ),
     "C07": (
         "model_checking",
         "exhaustive enumeration of the finite successor/allocation chain + explicit-state BFS over allocation histories on the real ZIDManager",
-        "All 135,252 suffixes of the successor chain are enumerated and compared with an independent odometer; the whole allocation chain of a date is driven through the real ZIDManager; every suffix (thorough) or every 2-char suffix plus all carry neighbourhoods (quick) is lexed by both generated lexers and compiled back as a note identity; a BFS over alloc / restart / new-process / other-live-process-allocates histories from 9 initial persisted maps, and round-robin histories over up to 12 (thorough 24) dates with a fresh manager per allocation, check uniqueness, returned==persisted-next and successor==model in every state. The space is finite, so within one date the verdict is complete, not sampled.",
+        "All 135,252 suffixes of the successor chain are enumerated and compared with an independent odometer; the whole allocation chain of a date is driven through the real ZIDManager; every suffix (thorough) or every 2-char suffix plus all carry neighbourhoods (quick) is lexed by both generated lexers and compiled back as a note identity, on ordinary, leap-day and century-edge dates; a BFS over alloc / restart / new-process / other-live-process-allocates histories from 9 initial persisted maps, and round-robin histories over up to 12 (thorough 24) dates with a fresh manager per allocation, check uniqueness, returned==persisted-next and successor==model in every state. The space is finite, so within one date the verdict is complete, not sampled.",
         "Trusts CPython, the antlr4 runtime and the odometer model (mc/models/zid_model.py); dates within one century; no concurrent allocators.",
         "§4 C07",
     ),
     "C08": (
         "exploration",
         "deviation-bounded exhaustive enumeration (0, 1, 2 edits away from valid seed pages + all short token strings) on the real compiler and index commands",
-        "Every single-character deletion/insertion/substitution over an alphabet of up to 30 symbols, every line and token edit of up to 12 seed pages that cover every construct, all pairs of line edits (thorough), and all token strings of length <= 3 are compiled by the real compiler; the oracle is the generated parser's own syntax-error counter (read from the intercepted parser instance, independent of ErrorManager) plus a line-shape item count, and an independent parse-tree walk decides whether a note was reachable. One representative per outcome class is pushed through real db create / db create -f / db reindex and the index is read back with sqlite3; whitelist look-alike paths and the whitelist life cycle (still broken, fixed, broken again) are driven through create and reindex.",
+        "Every single-character deletion/insertion/substitution over an alphabet of up to 30 symbols, every line and token edit of up to 12 seed pages that cover every construct, all pairs of line edits (thorough), and all token strings of length <= 3 are compiled by the real compiler; the oracle is the generated parser's own syntax-error counter (read from the intercepted parser instance, independent of ErrorManager) plus a line-shape item count, and an independent parse-tree walk decides whether a note was reachable. One representative per outcome class is pushed through real db create / db create -f / db reindex and the index is read back with sqlite3; whitelist look-alike paths and the whitelist life cycle (db create -f whitelists exactly the broken page; still broken, fixed, broken again) are driven through create and reindex.",
         "Lexer-level token-recognition errors (tab, NUL, non-ASCII) are outside the parser's report and only judged for totality; item count for damaged-but-accepted pages uses a line-shape rule.",
         "§4 C08",
     ),
@@ -74,21 +74,21 @@ CHECKS = {
     "C10": (
         "exploration",
         "exhaustive enumeration of (source layout x moved note x ZID mentions x destination shape x marker) through the real CLI on real indexed directories, judged by a line-algebra model and recompilation",
-        "Moved note in 4 forms (incl. one carrying a modify date) x 6 positions x 4 ZID-mention patterns x 3 own-tag patterns x 13 destination shapes (incl. no trailing newline, template-created, ending in a section header, the source page itself) x 3 markers (quick: every value of every dimension in rotation; thorough: the full product of 11,232 moves); each case indexes a real directory with db create and runs `zorg note move` in a fresh process. Source must equal the original minus exactly the note's lines; destination must preserve every old line in order with the note inserted once, contiguously; both pages are recompiled: same set of notes, requested kind, body = old body plus inserted metadata words, tags/properties superset, every other note unchanged.",
+        "Moved note in 4 forms (incl. one carrying a modify date) x 6 positions x 4 ZID-mention patterns x 3 own-tag patterns x 13 destination shapes (incl. no trailing newline, template-created, ending in a section header, the source page itself) x 3 markers (quick: every value of every dimension in rotation; thorough: the full product of 11,232 moves); each case indexes a real directory with db create and runs `zorg note move` in a fresh process. Source must equal the original minus exactly the note's lines; destination must preserve every old line in order with the note inserted once, contiguously; both pages are recompiled: same set of notes, requested kind, body = old body plus inserted metadata words, tags/properties superset, every other note unchanged. A second family moves notes that were written WITHOUT a ZID (dated/undated, single/multi-line) straight after db create gave them one.",
         "Moving into a page that does not exist and has no template must fail without touching the source; inherited links are not required to be carried (the statement names tags and properties).",
         "§4 C10",
     ),
     "C11": (
         "model_checking",
         "explicit-state BFS over edit/reindex/day-advance histories on a real directory with a predictive oracle fed by the previous raw index state",
-        "Breadth-first search (depth 3 from three initial states in quick; depth 5/4/4 in thorough) over 18 events (body, bullet, kind and priority edits incl. done/cancelled todos, a note under a section, a second page, a reorder, a new note, header-only edits, reindex, day advance); at every reindex transition the oracle predicts from the previous index rows and the current files exactly which first lines change and how (stamp inserted or replaced before the ZID, ZID inserted for new notes, every other byte identical), compares file bytes, requires index == recompiled files, and requires an immediately following reindex to change nothing. Both directions of the iff are decided on every explored history.",
+        "Breadth-first search (depth 3 from three initial states in quick; depth 5/4/4 in thorough) over 19 events (body, bullet, kind and priority edits incl. done/cancelled todos and a blocked todo with a priority, a note under a section, a second page, a reorder, a new note, header-only edits, reindex, day advance); at every reindex transition the oracle predicts from the previous index rows and the current files exactly which first lines change and how (stamp inserted or replaced before the ZID, ZID inserted for new notes, every other byte identical), compares file bytes, requires index == recompiled files, and requires an immediately following reindex to change nothing. Both directions of the iff are decided on every explored history.",
         "Current files are read through the real compiler (judged by C01); no hand-written stamps; time does not advance inside a command.",
         "§4 C11",
     ),
     "C12": (
         "exploration",
         "exhaustive small-scope enumeration of notes with a differential round-trip oracle (compile -> emit -> compile) on the real code",
-        "Every note of the enumerated single-item family (16 kind/priority forms x 4 identity forms x 1..2 words over 14 words x up to 5 tails) and every ordered pair of the reduced item alphabet is compiled, emitted by the real Note.to_string(), wrapped in a page header, compiled again and compared (kind, ZID, body, own tags/links/properties, dates iff ZID, priority unless done/cancelled); ungrouped S note renderings of a real index under every ordering key list are compiled back and must contain exactly the selected notes in order, also through a refreshed .zoq page.",
+        "Every note of the enumerated single-item family (16 kind/priority forms x 4 identity forms x 1..2 words over 14 words x up to 5 tails) and every ordered pair of the reduced item alphabet is compiled, emitted by the real Note.to_string(), wrapped in a page header, compiled again and compared (kind, ZID, body, own tags/links/properties, dates iff ZID, priority unless done/cancelled); ungrouped S note renderings of a real index under every ordering key list are compiled back and must contain exactly the selected notes in order, also through a refreshed .zoq page; the same on an index that went through a real edit/reindex history and on one whose 45 ZIDs were all handed out by the real allocator.",
         "The first compilation is only the reference for the second (C01 judges it against the written page); index corpus fixed per seed.",
         "§4 C12",
     ),
@@ -102,35 +102,35 @@ CHECKS = {
     "C14": (
         "exploration",
         "exhaustive small-scope enumeration of (rename pair x subsets of confusable link texts) through the real CLI, byte-compared with an independent link-token rewrite",
-        "8 renames (plain, B extends A, A extends B, in / into a sub-directory, names with .zo, base names ending in o / z) x every subset of size <= 2 (quick) / <= 3 (thorough) of 13 link texts confusable with the page name (+ the full set), written into the renamed page, another page, a deep page, a .zot template, a .zoq page and a non-zorg file; the real `zorg file rename` runs in a fresh process; file set and every byte must equal the independent rewrite; compiled link sets must differ by exactly the substitution.",
+        "9 renames (plain, B extends A, A extends B, in / into a sub-directory, same-named files in two directories, absolute paths, base names ending in o / z) x every subset of size <= 2 (quick) / <= 3 (thorough) of 13 link texts confusable with the page name (+ the full set), written into the renamed page, another page, a deep page, a .zot template, a .zoq page and a non-zorg file; the real `zorg file rename` runs in a fresh process; file set and every byte must equal the independent rewrite; compiled link sets must differ by exactly the substitution.",
         "Destination directory exists; closed link texts only.",
         "§4 C14",
     ),
     "C15": (
         "exploration",
         "exhaustive enumeration of acyclic saved-query sets x referencing queries on a real index, judged by substitution-as-sub-expression in the set-algebra model",
-        "Every acyclic assignment of 8 reference-free and 4 referencing clause forms to three saved-query names (one of them dotted, next to decoy pages whose names are its prefixes; 1,536 sets, written with three S/O/G wrapper styles) times 12 referencing query forms is expanded by the real expand_saved_queries and executed by the real repository on an index built by db create; the selected ZIDs (or the count) must equal the model's evaluation with every reference substituted as a sub-expression; the expansion must be well-formed and reference-free; 10 queries naming a saved query that is missing (directly, at a nested level, or with only a prefix-named page present) must make expansion fail and execute raise.",
+        "Every acyclic assignment of 8 reference-free and 4 referencing clause forms to three saved-query names (one of them dotted, next to decoy pages whose names are its prefixes; 1,536 sets, written with three S/O/G wrapper styles) times 12 referencing query forms is expanded by the real expand_saved_queries and executed by the real repository on an index built by db create; the selected ZIDs (or the count) must equal the model's evaluation with every reference substituted as a sub-expression; the expansion must be well-formed and reference-free; 10 queries naming a saved query that is missing (directly, at a nested level, or with only a prefix-named page present) must make expansion fail and execute raise; and, in one process, {outer}->{inner} is expanded, ONLY the inner page is rewritten (or deleted) and {outer} is expanded again: every expansion must reflect the pages as they are.",
         "Acyclic sets only; one designed corpus; saved pages without a W clause are not explored.",
         "§4 C15",
     ),
     "C16": (
         "exploration",
         "exhaustive enumeration of ordered pattern maps x targets x flags through the real init_from_template and CLI, judged by an oracle-side jinja2 rendering",
-        "Every ordered pattern map of size <= 2 (quick) / <= 3 (thorough) over 6 patterns x 7 targets x {missing, existing} x overwrite x explicit template x 3 variable maps through the real function, plus 10 maps through `zorg template init` with the map read from YAML in order: existing-and-not-forced files keep bytes and mtime, missing files get exactly the oracle's rendering of the first matching pattern's template body, nothing (no file, no directory) is created without a template, and a second invocation changes nothing.",
+        "Every ordered pattern map of size <= 2 (quick) / <= 3 (thorough) over 8 patterns (incl. ones that match only a prefix of the name) x 10 targets x {missing, existing} x overwrite x explicit template x 3 variable maps through the real function, plus 10 maps through `zorg template init` with the map read from YAML in order: existing-and-not-forced files keep bytes and mtime, missing files get exactly the oracle's rendering of the first matching pattern's template body, nothing (no file, no directory) is created without a template, and a second invocation changes nothing.",
         "ZorgTemplateManager's process-global scratch directory is re-created per worker; edit / action open / note move reach the same function.",
         "§4 C16",
     ),
     "C17": (
         "exploration",
         "exhaustive enumeration of lines (prefix x target sequence x wrapper) x option indices on the real command, with a scanner/resolver model and a differential single-target oracle",
-        "Every line of the enumerated family, in a .zo and a .zoq page of a directory indexed by the real db create, is passed to the real `action open` for every option index in {absent, 1..n, -1, n+1, 0}: output must be protocol lines only, 0 targets => ECHO, >= 2 => PROMPT in line order (primary ZID only in .zoq), a chosen target must resolve as its kind demands (owners taken from the raw index) and behave exactly like a line holding only that target; out-of-range => non-zero exit and no EDIT.",
+        "Every line of the enumerated family, in a .zo and a .zoq page of a directory indexed by the real db create, is passed to the real `action open` (targets incl. an ID:: inherited from a section header by several notes of one page) for every option index in {absent, 1..n, -1, n+1, 0}: output must be protocol lines only, 0 targets => ECHO, >= 2 => PROMPT in line order (primary ZID only in .zoq), a chosen target must resolve as its kind demands (owners taken from the raw index) and behave exactly like a line holding only that target; out-of-range => non-zero exit and no EDIT.",
         "Named-URL and cite-key targets start external programs and are not driven; in-process calls cross-checked against forked CLI processes on a sample.",
         "§4 C17",
     ),
     "C18": (
         "exploration",
         "exhaustive small-scope enumeration of configurations x inputs against a reference model + differential concatenation law",
-        "Every acyclic group map over three names with member lists up to the stated length over a 6-symbol alphabet, times every argument list up to the stated length, on 5 frozen days at window edges, is expanded by the real function and compared with an independent recursive flatten; the concatenation law is checked on every split. Exhaustive within the stated alphabet and bounds.",
+        "Every acyclic group map over three names with member lists up to the stated length over a 6-symbol alphabet (plus ordinary paths containing braces), times every argument list up to the stated length, on 5 frozen days at window edges, is expanded by the real function and compared with an independent recursive flatten; the concatenation law is checked on every split. Exhaustive within the stated alphabet and bounds.",
         "Small-scope hypothesis for names/paths outside the alphabet; time frozen with freezegun; acyclic maps only (as the statement says).",
         "§4 C18",
     ),
@@ -176,7 +176,7 @@ def main() -> None:
             {"property_id": p["id"], "reason": NOT_YET}
             for p in props if p["id"] not in CHECKS
         ],
-        "notes": "See DESIGN.md. Known findings: known_findings.json. Fix commits in /repo start with 'fix:'.",
+        "notes": "See DESIGN.md. Known findings: known_findings.json. Fix commits in /repo start with 'fix:'. A violation is believed only after it reproduces in a fresh replay - alone, or together with the evaluations that preceded it in its worker process (then the replay file carries that history).",
     }
     (VERIF / "MANIFEST.json").write_text(json.dumps(man, indent=1) + "\n")
     print("wrote MANIFEST.json with", len(checks), "checks")
